@@ -642,7 +642,11 @@ def check_C02(A: Analysis, tier):
                         for x in subterms(t):
                             if tag(x) == "list":
                                 els |= st_.lists.get(x, EMPTY)
-                    flat = {y for e_ in els for y in subterms(e_)}
+                    flat = {y for e_ in els for y in subterms(e_)} | {y for t in rv_ for y in subterms(t)}
+                    # appended elements of a copy made by slicing / list(...) that the interpreter tracks under the copy's own term
+                    for (lt, els2) in st_.lists.items():
+                        if any(lt in subterms(t) or t == lt for t in rv_):
+                            flat |= {y for e_ in els2 for y in subterms(e_)}
                     for x in pnames:
                         if which[x] and P(x) not in flat:
                             rg2.fail(rf_, f"{x} requested", f"with {pnames[0]} {'in' if va else 'not in'} the other list and {pnames[1]} {'in' if vb else 'not in'} it, the returned "
